@@ -53,6 +53,23 @@ def codec():
     return _CODEC
 
 
+def _prime(sess):
+    """The same Codec instance first serves ANOTHER session that shares the session key (keys are small
+    integers handed out per journal, so two sessions from different journals collide) but has other
+    CompIDs and another counter: anything the encoder remembers per key / per instance must not leak into
+    the frame under test."""
+    from asyncfix import FIXMessage
+    from asyncfix.session import FIXSession
+
+    other = FIXSession(sess.key, "PRIMET", "PRIMES")
+    other.next_num_out = 77
+    other.next_num_in = 55
+    try:
+        codec().encode(FIXMessage("0", {112: "prime"}), other)
+    except Exception:
+        pass
+
+
 # --------------------------------------------------------------------------
 # oracle
 # --------------------------------------------------------------------------
@@ -173,6 +190,7 @@ def evaluate(spec, S, T, stats):
     t, tk, body, mode, ctr, num, pos = spec
     msg, sess, raw = gen.build(spec, S, T)
     stats["encode_calls"] += 1
+    _prime(sess)
     try:
         if raw:
             frame = codec().encode(msg, sess, raw_seq_num=True)
